@@ -167,7 +167,76 @@ def run(E: Engine, rep: Report, tier: str) -> dict:
                     rep.check(whole, "SIB", f"{c.name}.{nm_}|forwards-all-construction-options", "the copy is built with **self._kwargs", f"{c.name}.{nm_} rebuilds the waveform without `**self._kwargs` (passes {[k for k, _x in v[3]]}): options kept there (e.g. the interpolator's `kind`) are lost in the copy, so scaling / changing the duration changes the shape", E.where(f, l.node))
     if n_kw < 2:
         raise AnalysisError("anchor: the copies InterpolatedWaveform builds of itself (change_duration, __mul__) were not found")
-    rep.floor("SIB", 24)
+    # KaiserWaveform.from_max_val tries durations and compares each candidate's peak with max_val: every quantity
+    # compared with max_val (short exhaustive branch, first guess, stepping loop) is the same expression of the tried
+    # window -- peak of the window times the area scaling -- whatever the duration variable
+    from .. import sym as _symC
+    from .symutil import mentions as _mentC, sh as _shC
+
+    kf = E.method("pulser.waveforms.KaiserWaveform", "from_max_val")
+    Skf = _SK(E, kf)
+
+    def _abstract_window(t):
+        def fn(x):
+            if isinstance(x, tuple) and len(x) == 4 and x[0] == "call" and x[1] == ("attr", ("name", "np"), "kaiser") and x[2]:
+                return ("call", x[1], (("name", "Q_duration"),) + tuple(x[2][1:]), x[3])
+            return None
+        return _symC.subst(t, fn)
+
+    def _is_mv(t):
+        # the (sign-normalised) maximum value: `max_val` or `-max_val if area < 0 else max_val`
+        t = _unK(t)
+        return t == ("name", "max_val") or (t[0] == "ifexp" and _unK(t[3]) == ("name", "max_val") and _mentC(t[2], "max_val"))
+
+    cands = []
+    carried_names = set()
+    for l in Skf.logged("test"):
+        for x in _symC.subterms(l.value):
+            if x[0] == "cmp" and x[1] in ("Lt", "LtE", "Gt", "GtE") and (_is_mv(x[2]) != _is_mv(x[3])):
+                cands.append((l, x[3] if _is_mv(x[2]) else x[2]))
+            if x[0] == "add" and len(x) == 3 and any(_is_mv(_symC.mk_neg(y)) for y in x[1:]):
+                other = [y for y in x[1:] if not _is_mv(_symC.mk_neg(y))]
+                if len(other) == 1:
+                    cands.append((l, other[0]))
+    for l, c in list(cands):
+        if c[0] == "carried":
+            carried_names.add(c[1])
+    for l in Skf.logged("assign"):
+        if l.target is not None and l.target[0] == "name" and l.target[1] in carried_names and l.value is not None:
+            cands.append((l, l.value))
+    forms = {}
+    for l, c in cands:
+        if c[0] == "carried":
+            continue
+        forms.setdefault(_abstract_window(c), []).append(l)
+    with_peak = [f_ for f_ in forms if any(t[0] == "call" and t[1][0] == "attr" and t[1][2] in ("max", "amax") for t in _symC.subterms(f_))]
+    if len(cands) < 3 or not with_peak:
+        raise AnalysisError(f"anchor: KaiserWaveform.from_max_val: candidate peaks compared with max_val not found ({len(cands)} comparison(s))")
+    ref = max(with_peak, key=lambda f_: len(forms[f_]))
+    order = {id(l): i_ for i_, (l, c) in enumerate((l, c) for l, c in cands if c[0] != "carried")}
+    for f_, ls in forms.items():
+        for l in ls:
+            rep.check(f_ == ref, "SIB", f"KaiserWaveform.from_max_val|candidate-peak-same-expression|comparison{order.get(id(l), 0)}", "compared with max_val: max(window) * 1000 * area / sum(window)",
+                      f"KaiserWaveform.from_max_val compares `{_shC(f_, 120)}` with max_val here but `{_shC(ref, 120)}` elsewhere: the peak of a Kaiser window is max(window) * scaling (even-length windows never reach 1), so this branch rejects durations whose peak is within the limit and the result is no longer the closest to max_val", E.where(kf, l.node))
+    # InterpolatedWaveform: a data point given at the relative time t sits on the nearest sample, round(t * (duration - 1))
+    ii = E.method("pulser.waveforms.InterpolatedWaveform", "__init__")
+    dp = [l for l in _SK(E, ii).logged("store") if l.target is not None and l.target[0] == "attr" and l.target[2] == "_data_pts"]
+    if not dp:
+        raise AnalysisError("anchor: InterpolatedWaveform.__init__ no longer stores _data_pts")
+    for l in dp:
+        v = l.value
+        def _about_times(t):
+            return _mentC(t, "_times") or _mentC(t, "times")
+        rounds = [t for t in _symC.subterms(v) if t[0] == "call" and ((t[1] == ("name", "round")) or (t[1][0] == "attr" and t[1][2] in ("round", "rint", "around"))) and t[2] and _about_times(t[2][0]) or (t[0] == "call" and t[1][0] == "attr" and t[1][2] in ("round",) and _about_times(t[1][1]))]
+        truncs = [t for t in _symC.subterms(v) if t[0] == "call" and ((t[1] in (("name", "int"),) and t[2] and _about_times(t[2][0])) or (t[1][0] == "attr" and t[1][2] in ("floor", "trunc", "ceil", "fix") and t[2] and _about_times(t[2][0])) or (t[1][0] == "attr" and t[1][2] == "astype" and _about_times(t[1][1]) and t[2] and t[2][0] in (("name", "int"), ("attr", ("name", "np"), "int64"), ("const", "int"))))]
+        truncs = [t for t in truncs if not any(_symC.contains(t, r) for r in rounds)]
+        if rounds and not truncs:
+            rep.ok("SIB", "InterpolatedWaveform.__init__|data-points-on-nearest-sample", "sample index of a data point = round(t * (duration - 1))", E.where(ii, l.node))
+        elif truncs:
+            rep.violation("SIB", "InterpolatedWaveform.__init__|data-points-on-nearest-sample", f"the sample index of an interpolation point is `{_shC(truncs[0], 100)}` (truncation / directed rounding, no round()): a point at 28.9999999 (0.29 * 100 in floating point) lands on sample 28 instead of 29, so the waveform no longer takes the given values at the documented points", E.where(ii, l.node))
+        else:
+            rep.excepted("SIB", "InterpolatedWaveform.__init__|data-points-on-nearest-sample", "neither a rounding nor a truncating conversion of the times was recognised: not decided", E.where(ii, l.node))
+    rep.floor("SIB", 28)
 
     # ------------------------------------------------------ base operations
     from .. import bounds, sym
